@@ -503,7 +503,9 @@ def index (d : Dump) : Result :=
   request (fields `key=value`; the first eleven in this order, numbers decimal; the others optional,
   in any order, each at most once):
     `index ts=<u32> os=<platform id> cpu=<arch> th=<T> nm=<N> bp=<B> ex=<E> mi=<M> st=<S> mo=<L> um=<L>`
-          `[en=<le|be>] [rg=<R>] [ml=<ML>] [si=<SI>] [lsb=<S'>] [mac=<MC>] [ba=<BA>] [hd=<n>]`
+          `[rg=<R>] [en=<le|be>] [ml=<ML>] [si=<SI>] [lsb=<S'>] [mac=<MC>] [ba=<BA>] [hd=<n ≥ 1>] [ps=<mask>]`
+    (`rg` first when present; `ps` = bit mask of streams that are present but not consulted:
+     1 thread-info list, 2 Crashpad info, 4 assertion info, 8 memory-info list)
     T  = `-` (no thread list) | `.` (empty) | `id:ctx[:stk],..`
          ctx = `r<ip>` | `r<ip>/<sp>/<fp>` | `u<mode>`
          stk = `<start>/n` (descriptor rva 0) | `<start>/o` (outside the file) | `<start>/m<k>` (cites the
@@ -719,6 +721,8 @@ structure Extra where
   mac : Option (List MacRec) := none
   ba : Option (Option String) := none
   hd : Option Nat := none
+  /-- streams that are present without being consulted (bit mask; no influence on the state) -/
+  ps : Option Nat := none
 
 def extra (acc : Extra) (tok : String) : Option Extra :=
   if let some v := kv tok "en" then
@@ -736,7 +740,12 @@ def extra (acc : Extra) (tok : String) : Option Extra :=
   else if let some v := kv tok "ba" then
     if acc.ba.isSome then none else (name v).map fun r => { acc with ba := some r }
   else if let some v := kv tok "hd" then
-    if acc.hd.isSome then none else (optNat v).map fun r => { acc with hd := some r }
+    if acc.hd.isSome then none
+    else match optNat v with
+      | some (r + 1) => some { acc with hd := some (r + 1) }
+      | _ => none
+  else if let some v := kv tok "ps" then
+    if acc.ps.isSome then none else (optNat v).map fun r => { acc with ps := some r }
   else none
 
 def dump (args : List String) : Option Dump :=
